@@ -4,6 +4,13 @@ from argparse import Namespace
 logger = logging.getLogger(__name__)
 
 
+class EscapedIdentifier(str):
+    """
+    an identifier name which is already normalised: escaping it again must not change it,
+    otherwise a quoted mixed-case name like "AbC" would lose its case the second time
+    """
+
+
 def escape_identifier_name(name: str):
     """
     conform to ANSI SQL standard that:
@@ -11,17 +18,19 @@ def escape_identifier_name(name: str):
         2) quoted identifier name is case-sensitive, reserve case and remove quote char
     Reference: https://stackoverflow.com/a/19933159
     """
+    if isinstance(name, EscapedIdentifier):
+        return name
     quote_chars = ["`", '"', "'"]
     if any(quote_char in name for quote_char in quote_chars):
         for quote_char in quote_chars:
             name = name.strip(quote_char)
-        return name
     elif name.startswith("[") and name.endswith("]"):
         # tsql allows quoted identifier with square brackets, see reference
         # https://learn.microsoft.com/en-us/sql/relational-databases/databases/database-identifiers?view=sql-server-ver16#classes-of-identifiers
-        return name.strip("[]")
+        name = name.strip("[]")
     else:
-        return name.lower()
+        name = name.lower()
+    return EscapedIdentifier(name)
 
 
 def extract_sql_from_args(args: Namespace) -> str:
